@@ -13,7 +13,7 @@ from ref import wire, interp
 PROPERTY = 'C19'
 ASSUMPTIONS = [
     'hash opcodes: RIPEMD160/SHA1/SHA256 are uninterpreted injective symbols shared by library and reference (arguments are compared, not digests)',
-    'signature opcodes (CHECKSIG family) are not part of this harness: ECDSA validity is an oracle outside the encoded code',
+    'signature opcodes (CHECKSIG family): Signature.parse_bytes/verify are replaced by a token parser and an arbitrary signature-validity relation V[sig][key] shared with the reference',
     'an exception raised by an op method counts as script failure, as in Script.evaluate\'s dispatch loop',
     'z3 bit-vector semantics; proxy/shim layer validated by witness replay on every path of the non-hash opcodes',
 ]
@@ -21,7 +21,7 @@ BOUNDS = {
     'quick': 'per opcode: every stack of depth 0..(arity+1) whose operand items have every length in 0..5 bytes (arithmetic) / 0..2 bytes (stack manipulation) with fully symbolic content; PICK/ROLL counts: 0..1-byte encodings; programs through Script.evaluate: every sequence of <= 3 commands over the alphabet {push of a symbolic item of 0..2 bytes, OP_0, OP_1, IF, NOTIF, ELSE, ENDIF, VERIFY, RETURN, DUP, EQUAL, ADD, NOT}',
     'thorough': 'as quick with depth +1, WITHIN operands 0..5 bytes, programs of <= 4 commands',
 }
-OUTSIDE = 'CHECKSIG/CHECKMULTISIG (need real ECDSA), altstack opcodes (not implemented by the library), programs longer than the bound or outside the alphabet, items longer than 5 bytes'
+OUTSIDE = 'real ECDSA inside CHECKSIG (oracle), altstack opcodes (not implemented by the library), programs longer than the bound or outside the alphabet, items longer than 5 bytes'
 
 # deviation flag -> opcodes it affects (finding id is 'C19-' + flag)
 FLAGS = {
@@ -203,6 +203,78 @@ def h_pick_roll(ex, name, maxdepth, wide):
     ex.check(prop, 'op_%s-consensus' % name, known=known)
 
 
+# ------------------------------------------------------------------------------------------ signature opcodes
+
+def SIG(i):
+    return bytes([0x30, 0x10 + i])
+
+
+def KEY(j):
+    return bytes([0x02, 0x20 + j])
+
+
+class _FakeSigObj:
+    def __init__(self, sid, V):
+        self.sid, self.V = sid, V
+
+    def verify(self, message, public_key):
+        kid = public_key[1] - 0x20
+        return self.V[self.sid][kid]
+
+
+def _fake_signature_class(V, S):
+    class FakeSignature:
+        @staticmethod
+        def parse_bytes(b, public_key=None):
+            if len(b) != 2 or b[0] != 0x30:
+                raise S.ScriptError("not a signature")          # the real parser raises on malformed / empty blobs
+            return _FakeSigObj(b[1] - 0x10, V)
+    return FakeSignature
+
+
+def h_sigops(ex, name, maxn):
+    """CHECKSIG / CHECKMULTISIG family through the real Stack methods with an arbitrary signature-validity relation
+    V[sig][key]: same success/failure and same resulting stack as Bitcoin Core's algorithm"""
+    E, S = _mods()
+    multi = 'multisig' in name
+    nk = ex.choose('nkeys', list(range(1, maxn + 1))) if multi else 1
+    ns = ex.choose('nsigs', list(range(0, nk + 1))) if multi else 1
+    V = [[ex.bool('v_%d_%d' % (i, j)) for j in range(nk)] for i in range(max(ns, 1))]
+    below = ex.bytes('below', 1)
+    if multi:
+        dummy = ex.choose('dummy', ['present', 'missing'])
+        items = ([below, b''] if dummy == 'present' else []) + [SIG(i) for i in range(ns)] + [bytes([ns]) if ns else b''] + \
+                [KEY(j) for j in range(nk)] + [bytes([nk])]
+    else:
+        sigkind = ex.choose('sig', ['token', 'empty'])
+        items = [below, SIG(0) if sigkind == 'token' else b'', KEY(0)]
+    Fake = _fake_signature_class(V, S)
+    if ex.concrete:
+        old = S.Signature
+        S.Signature = Fake
+    else:
+        shims.install(S, Signature=Fake)
+    try:
+        lib_ok, lib_st = run_lib_op(S, name, items, args=(b'msg',) if not multi else (b'msg', {}))
+    finally:
+        if ex.concrete:
+            S.Signature = old
+
+    def oracle(sig, key):
+        if len(sig) != 2:
+            return False                    # an empty signature is simply invalid in consensus
+        return V[sig[1] - 0x10][key[1] - 0x20]
+    c_ok, c_st = run_ref_op(name, items, interp.Ctx(checksig=oracle))
+    prop = outcome_eq(lib_ok, lib_st, c_ok, c_st)
+    known = []
+    if not multi:
+        known += kf('C19-checksig-empty-signature-aborts', items[1] == b'')
+    else:
+        known += kf('C19-checkmultisig-missing-dummy-tolerated', dummy == 'missing')
+        known += kf('C19-checkmultisig-zero-signatures-fails', ns == 0)
+    ex.check(prop, 'op_%s-consensus' % name, known=known)
+
+
 # ------------------------------------------------------------------------------------------ programs
 
 ALPHABET = ['push', 0, 81, 99, 100, 103, 104, 105, 106, 118, 135, 147, 145]
@@ -339,6 +411,8 @@ def jobs(tier):
         j = Job('op_' + name, h_op, W=56, setup=setup, params=dict(name=name, shape=shape), budget_s=1500)
         j.cost = 40 if name in ('sub', 'add', 'min', 'max', 'within') else 5
         J.append(j)
+    for name in ('checksig', 'checksigverify', 'checkmultisig', 'checkmultisigverify'):
+        J.append(Job('op_' + name, h_sigops, W=56, setup=setup, params=dict(name=name, maxn=3), budget_s=1500))
     for name in ('pick', 'roll'):
         J.append(Job('op_' + name, h_pick_roll, W=56, setup=setup, params=dict(name=name, maxdepth=3 if q else 4, wide=not q), budget_s=1500))
     ops = [o for o in sorted(interp.CORE_OPCODES) if o not in (0x79, 0x7a)]
